@@ -214,6 +214,8 @@ class RecSubscriber:
         self.H, self.oid, self.subscription = H, oid, None
         self.did_in_subscribe = None
         self.in_subscribe = None      # ['SRQ', n] / ['SCN']: what the application does *inside* on_subscribe (the usual reactive-streams place for it)
+        self.topup = None             # k: the application tops its credit up by k inside every k-th on_next, unless the element is flagged complete
+        self.seen = 0
 
     def on_subscribe(self, subscription):
         self.subscription = subscription
@@ -231,6 +233,13 @@ class RecSubscriber:
 
     def on_next(self, value, is_complete=False):
         self.H.out('ON:%d:%s:%s' % (self.oid, tstr(bytes_to_tags(value.data)), '1' if is_complete else '0'))
+        if self.topup and not is_complete and self.subscription is not None:
+            self.seen += 1
+            if self.seen % self.topup == 0:
+                # a nested entry point, as in on_subscribe: the batching idiom of every back-pressure-aware subscriber
+                # (the library's own CollectorSubscriber does the same)
+                self.H.mark('SRQ:%d:%d' % (self.oid, self.topup))
+                self.subscription.request(self.topup)
 
     def on_complete(self):
         self.H.out('OC:%d' % self.oid)
@@ -518,6 +527,7 @@ class EngineRun:
                 sub.oid = noid
                 self.out('CR:%d:%d' % (noid, req.stream_id))
                 req.initial_request_n(s['n'])
+                sub.topup = s.get('topup')
                 if s['sub']:
                     sub.in_subscribe = s.get('insub')
                     req.subscribe(sub)
